@@ -35,6 +35,8 @@ S0 == [ callT  |-> [i \in Ids |-> -1],   \* time of Call
         qT     |-> [i \in Ids |-> -1],   \* time the command itself was offered to the queue
         seq    |-> [i \in Ids |-> 0],    \* order of queueing
         mr     |-> [i \in Ids |-> 0],
+        rep    |-> [i \in Ids |-> 0],    \* num_repeats the caller asked for (> 1: every attempt is a burst by request;
+                                         \* the counting clauses C08a-c are then not judged for that caller)
         prio   |-> [i \in Ids |-> 0],
         to     |-> [i \in Ids |-> 0],    \* min(timeout, 20 s)
         nw     |-> [i \in Ids |-> 0],    \* transmissions so far
@@ -68,8 +70,11 @@ BadWrite(s, ev, e, echoTo, timed) ==
   LET i == e.i  t == e.t IN
   IF i \notin Ids THEN ""                     \* notice / probe frames are not judged here
   ELSE IF s.callT[i] < 0 THEN "C08d_write_without_call"
+  \* a caller that asked for bursts (num_repeats > 1) is outside the statement's quantifier (QoS settings are
+  \* wait_for_reply x max_retries x timeout): its own transmissions are not judged - everybody else's are
+  ELSE IF s.rep[i] > 1 THEN ""
   \* C08a "sent exactly 1 + min(max_retries, 3) times, no more"
-  ELSE IF s.nw[i] + 1 > Budget(s, i) THEN "C08a_over_budget"
+  ELSE IF s.rep[i] <= 1 /\ s.nw[i] + 1 > Budget(s, i) THEN "C08a_over_budget"
   \* C08d "once its caller has been given a result or an error it is never transmitted again"
   ELSE IF s.ended[i] /\ ~s.aband[i] /\ t > s.endT[i] + Slack THEN "C08d_write_after_answer"
   \* C08e "At most one command is awaiting its echo/reply at any moment"
@@ -83,9 +88,9 @@ BadWrite(s, ev, e, echoTo, timed) ==
        THEN "C08f_start_order"
   \* C08c "the wait doubling (up to 8x) after each unanswered attempt" (judged on attempts that
   \*      got no echo at all; base = the context's echo time-out, read from the object, J13)
-  ELSE IF timed /\ s.nw[i] >= 1 /\ ~s.rxSince[i] /\ ~s.dist[i] /\ ~PowersOk(t - s.lastW[i], echoTo)
+  ELSE IF timed /\ s.rep[i] <= 1 /\ s.nw[i] >= 1 /\ ~s.rxSince[i] /\ ~s.dist[i] /\ ~PowersOk(t - s.lastW[i], echoTo)
        THEN "C08c_gap_not_on_backoff_grid"
-  ELSE IF timed /\ s.nw[i] >= 1 /\ ~s.rxSince[i] /\ ~s.dist[i] /\ s.lastGap[i] > 0
+  ELSE IF timed /\ s.rep[i] <= 1 /\ s.nw[i] >= 1 /\ ~s.rxSince[i] /\ ~s.dist[i] /\ s.lastGap[i] > 0
           /\ ~Near(t - s.lastW[i], Min(2 * s.lastGap[i], BackoffCap * echoTo))
        THEN "C08c_gap_not_doubled"
   ELSE ""
@@ -106,7 +111,7 @@ BadAnswer(s, e, timed) ==
        THEN "C07e_late"
   \* C08b "and -- if its timeout allows -- no fewer" (J4: undisturbed, not cut short by the caller's
   \*       own time-out, at least one transmission made)
-  ELSE IF timed /\ e.e = "Raise" /\ e.k = "protocol" /\ s.nw[i] >= 1 /\ ~s.dist[i]
+  ELSE IF timed /\ e.e = "Raise" /\ e.k = "protocol" /\ s.rep[i] <= 1 /\ s.nw[i] >= 1 /\ ~s.dist[i]
           /\ t - s.callT[i] - s.nDur[i] < s.to[i] - RoundSl /\ s.nw[i] < Budget(s, i)
        THEN "C08b_gave_up_early"
   ELSE ""
@@ -139,7 +144,7 @@ Bad(s, ev, l, echoTo, timed) ==
 Upd(s, e) ==
   LET i == e.i  t == e.t IN
   CASE e.e = "Call" /\ i \in Ids ->
-         [s EXCEPT !.callT[i] = t, !.mr[i] = e.n, !.prio[i] = e.p, !.to[i] = e.a,
+         [s EXCEPT !.callT[i] = t, !.mr[i] = e.n, !.rep[i] = e.r, !.prio[i] = e.p, !.to[i] = e.a,
                    !.qT[i] = IF e.k = "IMP" THEN -1 ELSE t,
                    !.seq[i] = s.nseq + 1, !.nseq = s.nseq + 1]
     [] e.e = "NoticeStart" /\ i \in Ids -> [s EXCEPT !.nStart[i] = t]
